@@ -86,6 +86,12 @@ pub trait AgentConn {
     fn next_message(&mut self, timeout: Duration) -> Option<String>;
     /// the server side goes away (cli closes its stdout and exits / TCP FIN without close_notify)
     fn go_away(&mut self);
+    /// slow uplink (stand-in cli only): from now on the client's bytes are read one granted message at a
+    /// time, through a one-page pipe, so a client that writes a larger message blocks until the next grant
+    fn step_mode(&mut self) -> bool {
+        false
+    }
+    fn grant(&mut self) {}
 }
 
 impl AgentConn for RelayConn {
@@ -97,6 +103,12 @@ impl AgentConn for RelayConn {
     }
     fn go_away(&mut self) {
         _ = self.control(2);
+    }
+    fn step_mode(&mut self) -> bool {
+        self.control(4)
+    }
+    fn grant(&mut self) {
+        _ = self.control(5);
     }
 }
 
@@ -128,6 +140,8 @@ pub enum FaultKind {
     CloseAfter,
     /// error reply, delivered only after every later load was received (pipelining)
     DelayedRpcError,
+    /// slow uplink: the error reply arrives while the client is still blocked writing the next (large) load
+    RpcErrorWhileNextSendBlocked,
 }
 
 #[derive(Debug, Clone)]
@@ -218,6 +232,10 @@ fn serve(accept: impl FnOnce() -> Option<Box<dyn AgentConn>>, scn: &Scenario) ->
         out.note = "the agent never connected".into();
         return out;
     };
+    let stepping = matches!(scn.fault, Some((_, FaultKind::RpcErrorWhileNextSendBlocked))) && conn.step_mode();
+    if stepping {
+        conn.grant();
+    }
     _ = conn.send(hello_msg(&[CAP_BASE_1_0, "urn:ietf:params:netconf:capability:candidate:1.0", CAP_JUNOS], "4711").as_bytes());
     if conn.next_message(Duration::from_secs(10)).is_none() {
         out.note = "no client hello".into();
@@ -228,6 +246,9 @@ fn serve(accept: impl FnOnce() -> Option<Box<dyn AgentConn>>, scn: &Scenario) ->
     let mut loads_seen = 0usize;
     let mut last_ids: Vec<String> = Vec::new();
     loop {
+        if stepping {
+            conn.grant();
+        }
         let Some(msg) = conn.next_message(Duration::from_secs(10)) else { break };
         let doc = msg.strip_suffix(MARKER).unwrap_or(&msg);
         let Ok(rpc) = parse_xml(doc) else {
@@ -324,6 +345,13 @@ fn serve(accept: impl FnOnce() -> Option<Box<dyn AgentConn>>, scn: &Scenario) ->
                 out.acked[idx] = Some(false);
                 let body = if is_load { format!("<load-configuration-results>{ERR}<load-error-count>1</load-error-count></load-configuration-results>") } else { ERR.to_string() };
                 send(&mut conn, reply(&id, &body));
+            }
+            Some(FaultKind::RpcErrorWhileNextSendBlocked) => {
+                out.acked[idx] = Some(false);
+                let body = if is_load { format!("<load-configuration-results>{ERR}<load-error-count>1</load-error-count></load-configuration-results>") } else { ERR.to_string() };
+                send(&mut conn, reply(&id, &body));
+                // no grant yet: the client's next message stays stuck in its write for a while
+                thread::sleep(Duration::from_millis(250));
             }
             Some(FaultKind::MixedSeverity) => {
                 out.acked[idx] = Some(false);
@@ -631,11 +659,53 @@ pub fn run_c04(report: &mut Report) {
     }
     evaluations += tls_runs;
     report.set("agent_runs_over_tls", tls_runs);
+    // slow uplink and large loads: the stand-in cli reads the agent's requests one granted message at a time
+    // through a one-page pipe, every load is larger than that, and the error reply to load k arrives while
+    // the agent is still blocked writing load k+1
+    {
+        let mut db = model.db.clone();
+        let big = ["AS65100", "AS65101", "AS65102"];
+        for (i, asn) in big.iter().enumerate() {
+            _ = db.routes4.insert((*asn).to_string(), (0..70).map(|j| format!("10.{}.{}.0/24", 10 + i, 2 * j)).collect());
+        }
+        let irrd_big = Irrd::start(db);
+        let running: Vec<RunningStmt> = big.iter().enumerate().map(|(i, asn)| managed_stmt(&format!("big{i}"), asn)).collect();
+        let base = Scenario { instance_name: None, running, ephemeral: Instance::default(), fault: None, expected_loads: 3, irr_plan: Plan::default() };
+        let expect: Vec<String> = ["open-configuration", "get-config", "get-config", "load-configuration", "load-configuration", "load-configuration", "commit-configuration", "close-configuration", "close-session"].iter().map(|s| (*s).to_string()).collect();
+        let rec = run_agent(&base, &irrd_big, "C04-big-base");
+        let mut slow_runs = 1u64;
+        let smallest_load = rec.raw_requests.iter().filter(|r| r.contains("<load-configuration")).map(String::len).min().unwrap_or(0);
+        report.set("slow_uplink_smallest_load_bytes", smallest_load as u64);
+        if rec.rpcs != expect || rec.exit != Some(0) || rec.commits != 1 || smallest_load < 6000 {
+            report.violation("C04:fault-free-run-unexpected:large-loads", &format!("fault-free run with three large policies: requests {:?}, exit {:?}, commits {}, smallest load {smallest_load} bytes (expected three loads above 6000 bytes, exit 0, 1 commit); {}", rec.rpcs, rec.exit, rec.commits, rec.stderr_tail), record_json(&base, &rec));
+        } else {
+            for k in [3usize, 4] {
+                for attempt in 0..if thorough { 3 } else { 1 } {
+                    let scn = Scenario { fault: Some((k, FaultKind::RpcErrorWhileNextSendBlocked)), ..base.clone() };
+                    let rec = run_agent(&scn, &irrd_big, &format!("C04-slow-{k}-{attempt}"));
+                    slow_runs += 1;
+                    _ = distinct.insert(format!("slow-uplink|{k}"));
+                    let case = record_json(&scn, &rec);
+                    if rec.timed_out {
+                        report.violation("C04:run-does-not-terminate:RpcErrorWhileNextSendBlocked:at-load-configuration", &format!("error reply to request {k} while the next load is blocked in its write: the agent did not terminate within 12 s"), case.clone());
+                    }
+                    if rec.exit == Some(0) {
+                        report.violation("C04:failed-step-reported-as-success:RpcErrorWhileNextSendBlocked:at-load-configuration", &format!("error reply to request {k} (load) arriving while the next load is blocked in its write: the run reported success"), case.clone());
+                    }
+                    if rec.rpcs.iter().any(|r| r == "commit-configuration") {
+                        report.violation("C04:commit-after-failed-step:RpcErrorWhileNextSendBlocked:at-load-configuration", &format!("error reply to request {k} (load) arriving while the next load is blocked in its write: commit-configuration was requested; requests {:?}", rec.rpcs), case.clone());
+                    }
+                }
+            }
+        }
+        evaluations += slow_runs;
+        report.set("agent_runs_with_slow_uplink", slow_runs);
+    }
     report.set("evaluations", evaluations);
     report.set("distinct_nontrivial", distinct.len() as u64);
     report.set("agent_runs", evaluations);
     report.set("exhaustive", true);
-    report.set("rule", "the real agent (one-shot, local target through the stand-in cli; a slice with N = 1 also through the remote TLS target) against a fake Junos NETCONF server and a fake IRRd; N managed policies for N in the stated range, starting from an empty instance and from one that holds a policy that is no longer managed (its delete is one more load); one fault per run at every position of the request sequence open, get-config x2, load x N, commit, close-configuration, close-session, of every kind {rpc-error, warning+error rpc-errors, malformed reply, reply with an unknown message-id, reply re-using an earlier message-id, connection close before the reply, close after the reply}, plus failing load replies delayed until every later load was received; distinct = (N, position, kind); oracle over (exit status, request list as seen by the server)");
+    report.set("rule", "the real agent (one-shot, local target through the stand-in cli; a slice with N = 1 also through the remote TLS target) against a fake Junos NETCONF server and a fake IRRd; N managed policies for N in the stated range, starting from an empty instance and from one that holds a policy that is no longer managed (its delete is one more load); one fault per run at every position of the request sequence open, get-config x2, load x N, commit, close-configuration, close-session, of every kind {rpc-error, warning+error rpc-errors, malformed reply, reply with an unknown message-id, reply re-using an earlier message-id, connection close before the reply, close after the reply}, plus failing load replies delayed until every later load was received, and (slow uplink, loads larger than the pipe) failing load replies that arrive while the agent is blocked writing the next load; distinct = (N, position, kind); oracle over (exit status, request list as seen by the server)");
     report.assume("the fake Junos answers as the repository's fixtures and the Junos XML protocol documentation describe");
 }
 
